@@ -33,6 +33,22 @@ Proof.
   - inversion H; apply Nat.eqb_refl.
 Qed.
 
+Lemma lookup_some : forall s u f i p, lookup cf s u f i = Some p ->
+  mp s u f i = Some p /\ (cf_byid cf = true -> p_closed (pc s p) = false).
+Proof.
+  intros s u f i p. unfold lookup. destruct (mp s u f i) as [q|]; [|discriminate].
+  destruct (cf_byid cf && p_closed (pc s q))%bool eqn:E; [discriminate|].
+  intros H; inversion H; subst. split; auto. intros Hb. rewrite Hb in E. simpl in E. auto.
+Qed.
+
+Lemma lookup_none : forall s u f i, lookup cf s u f i = None ->
+  forall p, mp s u f i = Some p -> p_closed (pc s p) = true /\ cf_byid cf = true.
+Proof.
+  intros s u f i. unfold lookup. destruct (mp s u f i) as [q|]; [|discriminate].
+  destruct (cf_byid cf && p_closed (pc s q))%bool eqn:E; [|discriminate].
+  intros _ p H; inversion H; subst. apply andb_true_iff in E. tauto.
+Qed.
+
 (* ------------------------------------------------------------------------------------------ *)
 (* The invariant *)
 
@@ -301,7 +317,7 @@ Proof.
 Qed.
 
 Lemma inv_create_pc : forall s u is6 ip stun timer refs,
-  Inv s -> mp s u is6 ip = None -> creturned s = false ->
+  Inv s -> (forall p, mp s u is6 ip = Some p -> p_closed (pc s p) = true) -> creturned s = false ->
   (mclosed s = true -> timer = cf_alive cf) -> (timer = true -> stun = true) ->
   Inv (create_pc s u is6 ip stun timer refs).
 Proof.
@@ -317,7 +333,8 @@ Proof.
     + intros Hp. destruct (i_open0 p Hp) as (A & B & C). unfold upd; rewrite E.
       repeat split; auto.
       destruct (String.eqb (p_ufrag (pc s p)) u && Bool.eqb (p_is6 (pc s p)) is6 && String.eqb (p_ip (pc s p)) ip)%bool eqn:K; auto.
-      apply key_eqb_true in K. destruct K as (K1 & K2 & K3). rewrite K1, K2, K3 in C. congruence.
+      apply key_eqb_true in K. destruct K as (K1 & K2 & K3). rewrite K1, K2, K3 in C.
+      apply Hm in C. congruence.
   - intros u' f' i' p.
     destruct (String.eqb u' u && Bool.eqb f' is6 && String.eqb i' ip)%bool eqn:K.
     + intros Hp; inversion Hp; subst p. apply key_eqb_true in K. destruct K as (K1 & K2 & K3); subst.
@@ -431,15 +448,16 @@ Proof.
   destruct (classify m) eqn:Hm; simpl; try (apply inv_reject_pending; auto).
   destruct (negb (c_addr_ok (conn s cid))); simpl; [apply inv_reject_pending; auto|].
   assert (Hr : creturned s = false) by (apply (inv_ret_false s cid I); rewrite Hp; discriminate).
-  destruct (mp s ufrag (c_is6 (conn s cid)) (c_lip (conn s cid))) as [p|] eqn:Em; simpl.
-  - destruct (i_mp _ I _ _ _ _ Em) as (A & _).
+  destruct (lookup cf s ufrag (c_is6 (conn s cid)) (c_lip (conn s cid))) as [p|] eqn:El; simpl.
+  - destruct (lookup_some _ _ _ _ _ El) as (Em & _).
+    destruct (i_mp _ I _ _ _ _ Em) as (A & _).
     apply inv_set_one; auto.
     + apply routed_ok; auto.
     + simpl; intros; discriminate.
     + congruence.
   - destruct (cf_addr_ok cf); simpl; [|apply inv_reject_pending; auto].
     assert (I1 : Inv (create_pc s ufrag (c_is6 (conn s cid)) (c_lip (conn s cid)) true (cf_alive cf) 0)).
-    { apply inv_create_pc; auto. }
+    { apply inv_create_pc; auto. intros p Hmp. apply (lookup_none _ _ _ _ El p Hmp). }
     apply (inv_set_one (create_pc s ufrag (c_is6 (conn s cid)) (c_lip (conn s cid)) true (cf_alive cf) 0)); auto.
     + simpl. apply routed_ok; auto. apply conn_ok_grow; auto.
     + simpl; intros; discriminate.
@@ -608,8 +626,9 @@ Lemma inv_get : forall s h u is6 ip, Inv s -> Inv (next s (OGet h u is6 ip)).
 Proof.
   intros s h u is6 ip I. unfold next, step.
   destruct (mclosed s) eqn:Hm; simpl; auto.
-  destruct (mp s u is6 ip) as [p|] eqn:Em; simpl.
-  - destruct (i_mp _ I _ _ _ _ Em) as (A & _).
+  destruct (lookup cf s u is6 ip) as [p|] eqn:El; simpl.
+  - destruct (lookup_some _ _ _ _ _ El) as (Em & _).
+    destruct (i_mp _ I _ _ _ _ Em) as (A & _).
     apply inv_set_hnd.
     + apply inv_set_pc; simpl; auto.
     + unfold set_pc; simpl. intros h0 p0 b0. unfold upd. destruct (Nat.eqb h0 h).
@@ -620,7 +639,8 @@ Proof.
     { destruct (creturned s) eqn:R; auto. destruct (i_ret _ I R) as (X & _).
       apply (i_closing _ I) in X. congruence. }
     apply inv_set_hnd.
-    + apply inv_create_pc; auto; intros; congruence.
+    + apply inv_create_pc; auto; try (intros; congruence).
+      intros p Hp. apply (lookup_none _ _ _ _ El p Hp).
     + simpl. intros h0 p0 b0. unfold upd. destruct (Nat.eqb h0 h).
       * intros X; inversion X; subst; auto.
       * intros X. apply (i_hnd _ I) in X. lia.
@@ -681,24 +701,38 @@ Proof.
   destruct (Nat.ltb p (npc s) && p_watcher (pc s p) && p_closed (pc s p))%bool eqn:E; simpl; auto.
   apply andb_true_iff in E. destruct E as [E E3]. apply andb_true_iff in E. destruct E as [E1 E2].
   set (u := p_ufrag (pc s p)). set (ip := p_ip (pc s p)).
-  set (sel := fun r => (oeqb (mp s u false ip) r || oeqb (mp s u true ip) r)%bool).
-  set (m' := fun u' (f : bool) i => if (String.eqb u' u && String.eqb i ip)%bool then None else mp s u' f i).
-  assert (I1 : Inv (set_mp (close_pcs s sel) m')).
-  { apply inv_close_pcs; auto.
-    - intros u' f i q. unfold m'. destruct (String.eqb u' u && String.eqb i ip)%bool; intros; auto; discriminate.
-    - intros q Ho Hs. destruct (i_open _ I q Ho) as (A & B & C). unfold m'.
-      destruct (String.eqb (p_ufrag (pc s q)) u && String.eqb (p_ip (pc s q)) ip)%bool eqn:K; auto.
-      exfalso. apply andb_true_iff in K. destruct K as [K1 K2].
-      apply String.eqb_eq in K1. apply String.eqb_eq in K2. rewrite K1, K2 in C.
-      unfold sel in Hs. apply orb_false_iff in Hs. destruct Hs as [S1 S2].
-      destruct (p_is6 (pc s q)); rewrite C in *; simpl in *; rewrite Nat.eqb_refl in *; discriminate. }
-  assert (Hc : p_closed (pc (set_mp (close_pcs s sel) m') p) = true).
-  { simpl. unfold close_pc_of. destruct (sel p); simpl; auto. }
-  apply (inv_watcher_off _ p) in I1; auto.
-  simpl. intros u' f i Hx. unfold m' in Hx.
-  destruct (String.eqb u' u && String.eqb i ip)%bool eqn:K; [discriminate|].
-  destruct (i_mp _ I _ _ _ _ Hx) as (_ & X & _ & Y). unfold u, ip in K.
-  rewrite <- X, <- Y in K. rewrite !String.eqb_refl in K. discriminate.
+  destruct (cf_byid cf) eqn:Hb.
+  - (* the repair: nothing but the closed conn itself is unregistered *)
+    set (m' := fun u' (f : bool) i => if oeqb (mp s u' f i) p then None else mp s u' f i).
+    assert (I1 : Inv (set_mp (close_pcs s (fun _ => false)) m')).
+    { apply inv_close_pcs; auto.
+      - intros u' f i q. unfold m'. destruct (oeqb (mp s u' f i) p); intros; auto; discriminate.
+      - intros q Ho _. destruct (i_open _ I q Ho) as (A & B & C). unfold m'. rewrite C.
+        simpl. destruct (Nat.eqb q p) eqn:K; auto. apply Nat.eqb_eq in K; subst q. congruence. }
+    assert (Hc : p_closed (pc (set_mp (close_pcs s (fun _ => false)) m') p) = true).
+    { simpl. unfold close_pc_of. auto. }
+    apply (inv_watcher_off _ p) in I1; auto.
+    simpl. intros u' f i Hx. unfold m' in Hx.
+    destruct (oeqb (mp s u' f i) p) eqn:K; [discriminate|]. rewrite Hx in K. simpl in K.
+    rewrite Nat.eqb_refl in K. discriminate.
+  - set (sel := fun r => (oeqb (mp s u false ip) r || oeqb (mp s u true ip) r)%bool).
+    set (m' := fun u' (f : bool) i => if (String.eqb u' u && String.eqb i ip)%bool then None else mp s u' f i).
+    assert (I1 : Inv (set_mp (close_pcs s sel) m')).
+    { apply inv_close_pcs; auto.
+      - intros u' f i q. unfold m'. destruct (String.eqb u' u && String.eqb i ip)%bool; intros; auto; discriminate.
+      - intros q Ho Hs. destruct (i_open _ I q Ho) as (A & B & C). unfold m'.
+        destruct (String.eqb (p_ufrag (pc s q)) u && String.eqb (p_ip (pc s q)) ip)%bool eqn:K; auto.
+        exfalso. apply andb_true_iff in K. destruct K as [K1 K2].
+        apply String.eqb_eq in K1. apply String.eqb_eq in K2. rewrite K1, K2 in C.
+        unfold sel in Hs. apply orb_false_iff in Hs. destruct Hs as [S1 S2].
+        destruct (p_is6 (pc s q)); rewrite C in *; simpl in *; rewrite Nat.eqb_refl in *; discriminate. }
+    assert (Hc : p_closed (pc (set_mp (close_pcs s sel) m') p) = true).
+    { simpl. unfold close_pc_of. destruct (sel p); simpl; auto. }
+    apply (inv_watcher_off _ p) in I1; auto.
+    simpl. intros u' f i Hx. unfold m' in Hx.
+    destruct (String.eqb u' u && String.eqb i ip)%bool eqn:K; [discriminate|].
+    destruct (i_mp _ I _ _ _ _ Hx) as (_ & X & _ & Y). unfold u, ip in K.
+    rewrite <- X, <- Y in K. rewrite !String.eqb_refl in K. discriminate.
 Qed.
 
 Lemma filter_len0 : forall {A} (f : A -> bool) l, length (filter f l) = 0 -> forall x, In x l -> f x = false.
@@ -889,7 +923,7 @@ Lemma first_ok_routes : forall s cid m u b,
   In cid (cids s) -> c_phase (conn s cid) = PPending -> classify m = FOk u b -> c_addr_ok (conn s cid) = true ->
   let c := conn s cid in
   let s' := next s (OFirst cid m) in
-  match mp s u (c_is6 c) (c_lip c) with
+  match lookup cf s u (c_is6 c) (c_lip c) with
   | Some p => c_phase (conn s' cid) = PRouted p b /\ c_route (conn s' cid) = Some p /\
               c_msgs (conn s' cid) = [b] /\ c_got (conn s' cid) = [] /\ npc s' = npc s /\ pc s' = pc s /\ mp s' = mp s
   | None => cf_addr_ok cf = true ->
@@ -901,7 +935,7 @@ Lemma first_ok_routes : forall s cid m u b,
 Proof.
   intros s cid m u b Hin Hp Hm Ha. apply memb_In in Hin. simpl.
   unfold next, step. rewrite Hin, Hp, Hm, Ha; simpl.
-  destruct (mp s u (c_is6 (conn s cid)) (c_lip (conn s cid))) eqn:Em; simpl.
+  destruct (lookup cf s u (c_is6 (conn s cid)) (c_lip (conn s cid))) eqn:Em; simpl.
   - unfold upd; rewrite Nat.eqb_refl; simpl. repeat split; auto.
   - intros Hl; rewrite Hl; simpl. unfold upd; rewrite !Nat.eqb_refl; simpl.
     rewrite !String.eqb_refl, Bool.eqb_reflx; simpl. repeat split; auto.
